@@ -278,7 +278,7 @@ pub open spec fn layer_ok(l: ValidMetalLayer) -> bool {
 impl ValidMetalLayer {
 //@ fn layout21tetris/src/validate.rs :: impl ValidMetalLayer :: fn center
 //@   ret r
-//@   sub R10 /cursor \+= track\.start \+ track\.width \/ 2;/ => vp_add_assign(&mut cursor, track.start + track.width / 2);
+//@   sub R10 /cursor \+= ([^;]*);/ => vp_add_assign(&mut cursor, \1);
 //@   atstart
 //|         proof {
 //|             let n = self.period_data.signals@.len() as int; let q = idx as int / n; let p = self.pitch.0 as int;
